@@ -50,5 +50,7 @@ Dry-runs on a scratch copy (VERIF_REPO=/var/tmp/c19dev ./check C19 quick, findin
      witnesses fail again (54 oracle failures of class concat-string-bare-fstring: a VIOLATION with failing input once the class is listed as fixed)
  R2  fix e24fab1 reverted (nextToken recursive again)                           RED  C19_facts_ok (nextTokenShape, clause summaries) breaks,
      corpus fixed-lexer-recursion-stack-overflow.ops crashes the child again (stack overflow)
+ M13 grammar_parse.go:433 the `len(rhs.FString.Vars) == 0` guard of the both-f-string branch removed   RED  failing inputs
+     (`f(name = "x" f"y" f"z")`, …: index out of range [0]); the model follows the concatGuardsBothFString fact (0 disagreements), C19_facts_ok breaks
  M7  harmless: local `next` renamed to `ch` throughout nextToken, `l.line++` / `l.col = 0` swapped   GREEN (exit 0, 0 disagreements)
 """
